@@ -252,6 +252,11 @@ func generateDataKey(ctx context.Context, clients []AWSKMSClient) (*kms.Generate
 			continue
 		}
 
+		// KMS names the key by its key ARN in the response, also when it was addressed by an alias.
+		// Record the identifier this client is configured with, which is what encryptAllRegions
+		// compares, so the generating region's ready-made ciphertext is used for its entry.
+		resp.KeyId = aws.String(c.ARN)
+
 		return resp, nil
 	}
 
